@@ -19,6 +19,7 @@ func runC17(r *engine.Run) {
 	r.Rule("ERR-getnode", "at every call site of the trie's getNode, every return that is reached with the lookup error non-nil returns a non-nil error that is not the benign sentinel ErrValueNotPresent (the error itself, a node-not-found sentinel or a constructed error): lookups under an absent node fail rather than answer 'not present'")
 	r.Rule("DEP-count", "iterate's branch arm keeps visiting the remaining children when a child reports an absent node: inside the child loop a return of the child's error is reached only when it is none of the absent-node sentinels, the sentinels increment a counter, and ErrIteratingChildNodes is returned under counter != 0")
 	r.Rule("AGREE-sentinels", "the set of errors iterate counts as 'absent node' equals the set HasMissingNodes maps to (true, nil), and contains the store's ErrNodeNotFound, iterate's own ErrIteratingChildNodes and the detection handler's ErrMissingNodes")
+	r.Rule("AGREE-lockstep", "see C14: the store-level repair (MergeState) hands every foreign node to the target store together with its own key")
 	r.Rule("FRESH-donor", "nodes handed out by the donor store during MergeDB are not modified (FRESH-node of C03 applied to the donor-store source)")
 	r.NotDec = append(r.NotDec, "exactness of the reported key set for every removal subset")
 	errGetNode(r)
@@ -31,6 +32,7 @@ func runC17(r *engine.Run) {
 		}
 	}
 	donorCovered(r)
+	lockstep(r)
 }
 
 // resultValue resolves the i-th result of ret through a named-result cell
